@@ -542,6 +542,94 @@ def run_parked_case(ctx, case, rng):
         p.close()
 
 
+REQ_KINDS = ("exec", "shell", "pty", "x11", "subsystem")
+
+
+def run_pending_case(ctx, case, rng):
+    """A want-reply channel request is pending (the peer's answer waits behind a held link direction), a local thread
+    calls close(), and the peer's SUCCESS/FAILURE arrives before the peer's CLOSE (or the answer first, then close)."""
+    role = case["role"]
+    p = pair.Pair(rng=rng)
+    ans = case["answer"] == "success"
+    p.server.policy.update(check_channel_exec_request=ans, check_channel_shell_request=ans, check_channel_pty_request=ans,
+                           check_channel_x11_request=ans)
+    cm.watch(p.tc, p.rec, "c")
+    cm.watch(p.ts, p.rec, "s")
+    try:
+        if not p.start() or not p.auth():
+            ctx.inconclusive("handshake failed (pending request)")
+            return
+        cm.diverge_ids(p, rng)
+        c, s = p.session()
+        if s is None:
+            ctx.inconclusive("no server channel (pending request)")
+            return
+        x, y = (c, s) if role == "c" else (s, c)
+        yside = "s" if role == "c" else "c"
+        to_x = p.link.ba if role == "c" else p.link.ab
+        to_x.hold()
+        out = {}
+
+        def requester():
+            p.rec.add(kind="api", side=role, op="request:" + case["req"], phase="call", thread=threading.get_ident())
+            try:
+                k = case["req"]
+                if k == "exec":
+                    x.exec_command("true")
+                elif k == "shell":
+                    x.invoke_shell()
+                elif k == "pty":
+                    x.get_pty()
+                elif k == "x11":
+                    x.request_x11()
+                else:
+                    x.invoke_subsystem("nosuch")
+                out["res"] = "ok"
+            except Exception as e:
+                out["res"] = "raise:" + type(e).__name__
+            p.rec.add(kind="api", side=role, op="request:" + case["req"], phase="ret", res=out["res"], thread=threading.get_ident())
+
+        t = threading.Thread(target=requester, daemon=True)
+        t.start()
+        if not pair.wait_for(lambda: len(p.msgs(role, "out", (cm.REQUEST,))) > 0 and to_x.held, 20, 0.002):
+            to_x.release()
+            ctx.inconclusive("request or its answer not observed (pending request)")
+            return
+        ctx.count("requests_pending_with_answer_held")
+        if case["order"] == "close_before_answer":
+            do_op(x, "close", 0, p.rec, role)
+            to_x.release()
+            t.join(30)
+        else:
+            to_x.release()
+            t.join(30)
+            do_op(x, "close", 0, p.rec, role)
+        if t.is_alive():
+            ctx.inconclusive("pending request call did not return")
+            return
+        do_op(y, "close", 0, p.rec, yside)
+        released = pair.wait_for(lambda: p.tc._channels.get(c.get_id()) is None and p.ts._channels.get(s.get_id()) is None
+                                 and p.link.quiescent(0.02), 5, 0.003)
+        final = released or p.wait_quiet(ctx.pick(3.0, 6.0), 30)
+        ev = p.rec.snapshot()
+        closes = [e["n"] for e in p.msgs(role, "out", (cm.CLOSE,))]
+        answers = [e for e in p.msgs(role, "in", (cm.SUCCESS, cm.FAILURE))]
+        if answers and closes and answers[0]["n"] > closes[0]:
+            ctx.count("answers_read_after_own_close")
+        if answers and answers[0]["type"] == cm.FAILURE:
+            ctx.count("request_failures_read")
+        elif answers:
+            ctx.count("request_successes_read")
+        for side, tr in (("c", p.tc), ("s", p.ts)):
+            insts, _ = cm.ledger(ev, side)
+            for inst in insts:
+                automaton(ctx, inst, tr, case, final)
+        ctx.count("pending_request_cases")
+        return True
+    finally:
+        p.close()
+
+
 def do_op_exec(chan, rec, side):
     rec.add(kind="api", side=side, op="exec_command", phase="call", thread=threading.get_ident())
     try:
@@ -561,6 +649,14 @@ def run(ctx):
                     api=("send", "send_stderr", "sendall")[j // 4 % 3], size=(1, 100, 40000)[j % 3])
         r = ctx.guard(run_parked_case, ctx, case, rng)
         ctx.case(("c22-parked", repr(case)), sample=case if i == 0 else None, nontrivial=bool(r))
+    for i in range(ctx.pick(5, 40)):
+        j = i * ctx.nshards + ctx.shard
+        role = "cs"[j % 2]
+        case = dict(kind="pending-request-vs-close", role=role, req=REQ_KINDS[j // 2 % 5],
+                    answer=("failure", "success")[j // 10 % 2] if role == "c" and REQ_KINDS[j // 2 % 5] != "subsystem" else "failure",
+                    order=("close_before_answer", "close_after_answer")[j // 4 % 2])
+        r = ctx.guard(run_pending_case, ctx, case, rng)
+        ctx.case(("c22-pending", repr(case), i), sample=case if i == 0 else None, nontrivial=bool(r))
     for i in range(ctx.pick(6, 40)):
         case = gen_kex_case(rng, i * ctx.nshards + ctx.shard)
         r = ctx.guard(run_kex_case, ctx, case, rng)
@@ -586,4 +682,7 @@ def run(ctx):
     ctx.require("idle_rekeys_after_close", 40)
     ctx.require("kex_cases_run", 30)
     ctx.require("parked_writer_cases", 24)
+    ctx.require("pending_request_cases", 30)
+    ctx.require("answers_read_after_own_close", 10)
+    ctx.require("request_failures_read", 15)
     ctx.require("adjust_processed_before_writer_reacquired_lock", 20)
